@@ -10,6 +10,8 @@ import (
 	"errors"
 	"fmt"
 	"io"
+	"path/filepath"
+	"runtime"
 	"strings"
 	"time"
 
@@ -61,6 +63,11 @@ func c09new(caller bool, reentw ...bool) *c09world {
 		fl |= slog.Lcaller
 	}
 	slog.SetFlags(fl)
+	// the directory of this source file is a known path: the caller's file name then has a
+	// privacy form that differs from its plain form wherever the worker runs
+	if _, file, _, ok := runtime.Caller(0); ok {
+		slog.AddKnownPathMapping(filepath.Dir(file), "$W")
+	}
 	_ = slog.RegisterLevel(c09Colored, "notice40", slog.RegWithColor(color.FgGreen, color.BgUnderline), slog.RegWithTreatedAsLevel(slog.InfoLevel))
 	w := &c09world{rec: &recorder{}, loggers: map[string]*slog.Entry{}}
 	mk := func(name string, l *slog.Entry) {
@@ -114,6 +121,16 @@ func (w *c09world) issue(k c09call) {
 		default:
 			l.LogAttrs(bg, sev, "small verb", "q", 7)
 		}
+	case "verb-scoped-flags":
+		// the verb path while the path-privacy and caller flags are toggled inside a SaveFlagsAndMod scope
+		var restore func()
+		if slog.IsAnyBitsSet(slog.Lprivacypath) {
+			restore = slog.SaveFlagsAndMod(slog.Lcaller, slog.Lprivacypath|slog.Lprivacypathregexp)
+		} else {
+			restore = slog.SaveFlagsAndMod(slog.Lcaller | slog.Lprivacypath | slog.Lprivacypathregexp)
+		}
+		l.LogAttrs(bg, sev, "via verb, flags changed for this call only", "k", 1)
+		restore()
 	case "verb":
 		// through the verb path (collectArgs, the attribute pool, the time seam)
 		l.LogAttrs(bg, sev, "via verb", "k", 1, slog.Group("g", "x", 1), "z", "last", "e3", c09v3err)
@@ -132,8 +149,11 @@ func c09calls(thorough bool) (hist, probes []c09call) {
 	// history alphabet: a representative subset issued on the probed logger, a sibling and the default logger
 	for _, f := range []string{"color", "json", "logfmt"} {
 		for _, s := range []slog.Level{slog.ErrorLevel, c09Colored, slog.TraceLevel} {
-			for _, sh := range []string{"rich", "rich-eol", "egroup", "verb", "verb-small", "plain", "reent"} {
+			for _, sh := range []string{"rich", "rich-eol", "egroup", "verb", "verb-small", "plain", "reent", "verb-scoped-flags"} {
 				if sh == "reent" && (s != slog.ErrorLevel || !thorough && f == "json") {
+					continue
+				}
+				if sh == "verb-scoped-flags" && (s != slog.ErrorLevel || !thorough && f != "json") {
 					continue
 				}
 				if !thorough && (sh == "plain" || sh == "verb-small") && s != slog.TraceLevel && s != slog.ErrorLevel {
@@ -242,7 +262,7 @@ func c09run(c *Ctx) {
 			return
 		}
 		for _, h := range hist {
-			if len(p) == 2 && h.Shape != "rich" && h.Shape != "reent" && h.Shape != "verb" && h.Shape != "verb-small" && h.Shape != "egroup" && h.Shape != "rich-eol" {
+			if len(p) == 2 && h.Shape != "rich" && h.Shape != "reent" && h.Shape != "verb-scoped-flags" && h.Shape != "verb" && h.Shape != "verb-small" && h.Shape != "egroup" && h.Shape != "rich-eol" {
 				continue // third history element: the shapes that touch the most state
 			}
 			if !c.Thorough() && len(p) == 1 && (h.Shape == "plain" || (h.Shape == "rich" || h.Shape == "rich-eol" || h.Shape == "egroup") && h.Target != "probed" || slog.Level(h.Sev) == slog.TraceLevel) {
